@@ -41,7 +41,7 @@ def history_case(max_n=40, max_updates=12, max_T=2.0, regimes=(4, 6, 4, 6, 1, 0,
         {
             "min": hist.mineral_spec(2, max_n, regimes=regimes),
             "par": hist.param_spec(),
-            "F0": hist.f0_spec(),
+            "F0": hist.f0_spec(large=True),
             "flow": hist.flow_spec(max_T),
             "cuts": hist.cuts_spec(max_updates),
             "modes": st.lists(st.integers(0, 2), min_size=1, max_size=6),
@@ -175,6 +175,29 @@ ORACLES = [
         known_models=KNOWN_MODELS,
         quick=160,
         thorough=1200,
+        shrink_seconds=240,
+    ),
+    Oracle(
+        # a run that is continued after a very large strain: the starting deformation gradient has
+        # principal stretches up to 1e8 while the texture is still evolving (dislocation regimes)
+        "history_valid_continued",
+        st.builds(
+            lambda c, e, R, Q, T: dict(
+                c,
+                F0={"k": "RS", "R": R, "Q": Q, "s": [10.0 ** (e[0] / 10.0), 10.0 ** (-e[1] / 20.0), 10.0 ** (-e[2] / 20.0)]},
+                regime2=4 if c["regime2"] in (1, 0, 7) else c["regime2"],
+                flow=dict(c["flow"], T=T),
+            ),
+            history_case(30, 6, 2.0, regimes=(4, 6)),
+            st.lists(st.integers(30, 80), min_size=3, max_size=3),
+            gen.rotation_spec(),
+            gen.rotation_spec(),
+            st.sampled_from([1.0, 1.5, 2.0]),
+        ),
+        check_history,
+        classify=classify,
+        quick=24,
+        thorough=300,
         shrink_seconds=240,
     ),
     Oracle(
